@@ -803,7 +803,7 @@ def check_C09(rep, prog, tier):
         _damage_obligation(rep, prog, 'validate reports at least one error whenever the damage changes what a version restores to (%s-version history)' % variant,
                            D.make_contained(prog, 'validate', variant), dl, 'C09', _history_native(variant))
     shapes = [('FF', [1, 2])] if tier == 'quick' else [('FF', [1, 2]), ('FF', [1, 1]), ('FSD', [1, 0, 0])]
-    cases = _bcases(shapes, ['none', 'crash'], validate_after=True) + _bcases([('F', [1])], ['none'], prior='same', validate_after=True)
+    cases = _bcases(shapes, ['none', 'crash', 'empty_crash'], validate_after=True) + _bcases([('F', [1])], ['none'], prior='same', validate_after=True)
     rep.bounds['healthy_cases'] = [BC.case_name(c) for c in cases]
     BC.run_cases(rep, prog, cases, dl, 'C09', 'validate (full and quick) is silent on archives produced by fault-free and interrupted backups')
 
